@@ -231,6 +231,13 @@ def _coincidence_templates():
     for d in reversed(range(16)):
         deep += "    " * d + ("    D%d d%d = 2\n" % (d + 1, d + 1) if d < 15 else "") + "    " * d + "}\n"
     t.append(deep)
+    for n in (200, 600):
+        # very deep nesting: accepted; beyond ~500 levels lint and every renderer exceed the
+        # interpreter's recursion limit on the pinned tree (listed as an open known finding)
+        txt = "".join("message V%d {\n" % d for d in range(n)) + "bool leaf = 1\n"
+        for d in reversed(range(n)):
+            txt += ("V%d v_%d = 2\n" % (d + 1, d + 1) if d < n - 1 else "") + "}\n"
+        t.append(txt)
     t.append("message SameLineA {\n    bool x = 1\n} message SameLineB {\n    bool y = 1\n}")
     t.append("message OneLine { bool z = 1; uint3 w = 2; }")
     t.append("message OneLine2 { bool z = 1; } enum OneLineE : uint1 { OLE_A = 0; OLE_B = 1; } type OneLineT = uint3; const ONELINE = 1;")
